@@ -647,6 +647,7 @@ func liveSupplement(run *vkRun, tier string) {
 		Events   int      `json:"stream_events"`
 		Rejected []string `json:"rejected_traces,omitempty"`
 		Races    []string `json:"races,omitempty"`
+		Crashed  string   `json:"process_terminated,omitempty"`
 	}
 	do := func(bin string, race bool) pass {
 		var p pass
@@ -672,6 +673,18 @@ func liveSupplement(run *vkRun, tier string) {
 			p.Note = "timed out"
 		}
 		p.Ran = true
+		if es := errb.String(); !race || strings.Contains(es, "\npanic:") || strings.Contains(es, "fatal error:") {
+			for _, mark := range []string{"panic:", "fatal error:"} {
+				if i := strings.Index(es, mark); i >= 0 && !strings.Contains(es[:i], "WARNING: DATA RACE") || (i >= 0 && !race) {
+					msg := es[i:]
+					if len(msg) > 400 {
+						msg = msg[:400]
+					}
+					p.Crashed = strings.Replace(msg, "\n", " | ", -1)
+					break
+				}
+			}
+		}
 		for _, line := range strings.Split(out.String(), "\n") {
 			if !strings.HasPrefix(line, "LIVE ") {
 				continue
@@ -720,6 +733,9 @@ func liveSupplement(run *vkRun, tier string) {
 	}
 	normal := do(exe, false)
 	run.Cov["driver_conformance"] = normal
+	if normal.Crashed != "" {
+		run.Violation("live:process-terminated:live-scripts", "a free-running script terminated its process: "+normal.Crashed, map[string]interface{}{"cmd": "vraft live"})
+	}
 	for _, f := range normal.Failed {
 		run.Violation("live:script-failed:"+strings.SplitN(f, ":", 2)[0], "free-running script failed: "+f, map[string]interface{}{"cmd": "vraft live"})
 	}
